@@ -92,6 +92,28 @@ def run(tier, seed):
         if sample is None:
             b = next(x for x in behs if len(x["lines"]) >= 5 and not x["dev"])
             sample = {"lines": b["lines"], "ddl": A.render(b, b["stmts"], seed), "expected": A.expected_entities(b, b["stmts"])}
+    # ---- code -> spec: the real assembler's per-line events on the regression corpus, validated by TLC --------------------------
+    from .. import corpus as CP
+    from .. import trace_asm as TA
+    corp = CP.harvest()
+    traces = TA.record([(r["text"], r["ctor"]) for r in corp])
+    nacc, rej, rt = TA.validate(traces, strict=False)
+    for i, line, model in rej:
+        V.mismatch({"what": "recorded execution rejected by spec/TraceAssembler.tla (comment items)", "ddl": corp[i]["text"][:1200], "line": line,
+                    "logged": traces[i][line - 1]["st"] if line else None, "model": model}, paths=["trace"])
+    nacc2, rej2, rt2 = TA.validate(traces, strict=True)
+    # the binding is demonstrated on every run: one corrupted field must be rejected
+    import copy
+    bad = copy.deepcopy(next(t for t in traces if len(t) >= 3))
+    bad[1]["st"]["ncomments"] += 1
+    _, rejb, _ = TA.validate([bad], strict=False)
+    if not rejb:
+        raise C.MachineryError("trace validation accepted a corrupted trace: the binding is vacuous")
+    states += (rt.distinct if rt else 0) + (rt2.distinct if rt2 else 0)
+    trans += (rt.generated if rt else 0) + (rt2.generated if rt2 else 0)
+    cov["corpus_traces"] = {"scripts": len(traces), "lines": sum(len(t) for t in traces), "accepted": nacc, "rejected": len(rej),
+                            "strict_only_rejections (model drift)": len(rej2) - len(rej), "corrupted_trace_rejected": True}
+    total += nacc
     rc = V.finish()
     cov.update({"states": states, "transitions": trans, "traces_validated_against_impl": total,
                 "model_drift": {"behaviours_where_the_grammar_received_other_statements_than_the_model_submitted": tot_drift},
